@@ -14,6 +14,8 @@
     `X_weight_conserved` Σ values = Σ weights of the ballots that have an image   (one item per ballot)
 -/
 import VotelibProofs.Lemmas.ConvertImages
+import VotelibProofs.Lemmas.ConvertPositional
+import VotelibProofs.Lemmas.ConvertCondorcet
 namespace VL.C13
 open VL VL.Convert
 
@@ -306,6 +308,291 @@ theorem firstN_flat_image_partial (n : Int) (b : Ballot)
 theorem firstN_flat_image_witness :
     ¬ (canonItems (pyTake 1 [RankItem.shared [1, 2], RankItem.one 3])
         = (canonSet (ballotCands (pyTake 1 [RankItem.shared [1, 2], RankItem.one 3]))).map RankItem.one) := by
+  decide +kernel
+
+/-! ## RankedToPositionalVotes (every rank scorer) -/
+
+/-- every candidate named on a ballot belongs to the universe (true of `all_ranked_candidates`) -/
+def Covers (U : List Cand) (p : RProfile) : Prop := ∀ bw ∈ p, ∀ c ∈ ballotCands bw.1, c ∈ U
+
+/-- the scorer accepts the length of every ballot: Borda refuses more ranks than candidates -/
+def ScorerOK (sc : Scorer) (nCand : Nat) (p : RProfile) : Prop :=
+  ∀ bw ∈ p, scorerAccepts sc nCand bw.1.length = true
+
+instance (U : List Cand) (p : RProfile) : Decidable (Covers U p) := by unfold Covers; infer_instance
+instance (sc : Scorer) (n : Nat) (p : RProfile) : Decidable (ScorerOK sc n p) := by unfold ScorerOK; infer_instance
+
+theorem covers_allRankedCandidates (p : RProfile) : Covers (allRankedCandidates p) p :=
+  fun bw hbw c hc => (mem_allRankedCandidates p c).2 ⟨bw, hbw, hc⟩
+
+/-- over a fixed universe `U` the positional converter returns, for every candidate of `U`, the sum of
+    the ballot images `Σ w · Σ_places score(place) · [k stands there]`; the keys are exactly `U` -/
+theorem positional_sum (sc : Scorer) (U : List Cand) (p : RProfile) (hc : Covers U p) (hs : ScorerOK sc U.length p) :
+    ∃ d, positionalU sc U p = .ok d ∧ (∀ k, k ∈ dkeys d ↔ k ∈ U) ∧ (U.Nodup → (dkeys d).Nodup) ∧
+      ∀ k, toFun d k = wsum p (fun b => posImage sc U.length b k) := by
+  obtain ⟨d, h1, _, h3, h4, h5⟩ := positionalU_ok sc U p hc (fun bw hbw => by
+    obtain ⟨l, hl⟩ := (scorerAccepts_iff sc U.length bw.1.length).1 (hs bw hbw)
+    exact ⟨l, hl, le_of_eq (Scorer.scores_length hl).symm⟩)
+  exact ⟨d, h1, h3, h4, h5⟩
+
+/-- additivity over the same candidates: the universe is fixed -/
+theorem positional_additive (sc : Scorer) (U : List Cand) (p₁ p₂ : RProfile)
+    (hc : Covers U (p₁ ++ p₂)) (hs : ScorerOK sc U.length (p₁ ++ p₂)) :
+    ∃ d d₁ d₂, positionalU sc U (p₁ ++ p₂) = .ok d ∧ positionalU sc U p₁ = .ok d₁ ∧ positionalU sc U p₂ = .ok d₂ ∧
+      ∀ k, toFun d k = toFun d₁ k + toFun d₂ k := by
+  obtain ⟨d, hd, _, _, h⟩ := positional_sum sc U _ hc hs
+  obtain ⟨d₁, hd₁, _, _, h₁⟩ := positional_sum sc U p₁ (fun bw hbw => hc bw (List.mem_append_left _ hbw))
+    (fun bw hbw => hs bw (List.mem_append_left _ hbw))
+  obtain ⟨d₂, hd₂, _, _, h₂⟩ := positional_sum sc U p₂ (fun bw hbw => hc bw (List.mem_append_right _ hbw))
+    (fun bw hbw => hs bw (List.mem_append_right _ hbw))
+  exact ⟨d, d₁, d₂, hd, hd₁, hd₂, fun k => by rw [h, h₁, h₂, wsum_append]⟩
+
+theorem positional_additive_merged (sc : Scorer) (U : List Cand) (p₁ p₂ : RProfile)
+    (hc : Covers U (p₁ ++ p₂)) (hs : ScorerOK sc U.length (p₁ ++ p₂)) :
+    ∃ d d₁ d₂, positionalU sc U (mergeDict (p₁ ++ p₂)) = .ok d ∧ positionalU sc U p₁ = .ok d₁ ∧
+      positionalU sc U p₂ = .ok d₂ ∧ ∀ k, toFun d k = toFun d₁ k + toFun d₂ k := by
+  have hkeys : ∀ bw ∈ mergeDict (p₁ ++ p₂), ∃ bw' ∈ p₁ ++ p₂, bw'.1 = bw.1 := by
+    intro bw hbw
+    have : bw.1 ∈ dkeys (p₁ ++ p₂) := (mem_dkeys_mergeDict _ _).1 (List.mem_map.2 ⟨bw, hbw, rfl⟩)
+    exact List.mem_map.1 this
+  obtain ⟨dm, hdm, _, _, hm⟩ := positional_sum sc U (mergeDict (p₁ ++ p₂))
+    (fun bw hbw c hcc => by obtain ⟨bw', h', e⟩ := hkeys bw hbw; exact hc bw' h' c (e ▸ hcc))
+    (fun bw hbw => by obtain ⟨bw', h', e⟩ := hkeys bw hbw; exact e ▸ hs bw' h')
+  obtain ⟨d₁, hd₁, _, _, h₁⟩ := positional_sum sc U p₁ (fun bw hbw => hc bw (List.mem_append_left _ hbw))
+    (fun bw hbw => hs bw (List.mem_append_left _ hbw))
+  obtain ⟨d₂, hd₂, _, _, h₂⟩ := positional_sum sc U p₂ (fun bw hbw => hc bw (List.mem_append_right _ hbw))
+    (fun bw hbw => hs bw (List.mem_append_right _ hbw))
+  exact ⟨dm, d₁, d₂, hdm, hd₁, hd₂, fun k => by rw [hm, h₁, h₂, wsum_mergeDict, wsum_append]⟩
+
+/-- the converter as called (`all_candidates = all_ranked_candidates(votes)`): profiles over the same
+    number of candidates add up -/
+theorem rankedToPositional_additive (sc : Scorer) (p₁ p₂ : RProfile)
+    (h₁ : (allRankedCandidates p₁).length = (allRankedCandidates (p₁ ++ p₂)).length)
+    (h₂ : (allRankedCandidates p₂).length = (allRankedCandidates (p₁ ++ p₂)).length)
+    (hs : ScorerOK sc (allRankedCandidates (p₁ ++ p₂)).length (p₁ ++ p₂)) :
+    ∃ d d₁ d₂, rankedToPositional sc (p₁ ++ p₂) = .ok d ∧ rankedToPositional sc p₁ = .ok d₁ ∧
+      rankedToPositional sc p₂ = .ok d₂ ∧ ∀ k, toFun d k = toFun d₁ k + toFun d₂ k := by
+  unfold rankedToPositional
+  obtain ⟨d, hd, _, _, h⟩ := positional_sum sc _ _ (covers_allRankedCandidates (p₁ ++ p₂)) hs
+  obtain ⟨d₁, hd₁, _, _, hh₁⟩ := positional_sum sc _ p₁ (covers_allRankedCandidates p₁)
+    (fun bw hbw => by rw [h₁]; exact hs bw (List.mem_append_left _ hbw))
+  obtain ⟨d₂, hd₂, _, _, hh₂⟩ := positional_sum sc _ p₂ (covers_allRankedCandidates p₂)
+    (fun bw hbw => by rw [h₂]; exact hs bw (List.mem_append_right _ hbw))
+  exact ⟨d, d₁, d₂, hd, hd₁, hd₂, fun k => by rw [h, hh₁, hh₂, wsum_append, h₁, h₂]⟩
+
+/-- the converter as called lists every candidate of the profile exactly once -/
+theorem rankedToPositional_keys (sc : Scorer) (p : RProfile) (d : Dict Cand) (h : rankedToPositional sc p = .ok d) :
+    (dkeys d).Nodup ∧ ∀ k, k ∈ dkeys d ↔ ∃ bw ∈ p, k ∈ ballotCands bw.1 := by
+  unfold rankedToPositional at h
+  have hs : ScorerOK sc (allRankedCandidates p).length p := by
+    intro bw hbw
+    by_contra hne
+    have hrej : ∀ l, sc.scores (allRankedCandidates p).length bw.1.length ≠ .ok l :=
+      fun l hl => hne ((scorerAccepts_iff _ _ _).2 ⟨l, hl⟩)
+    -- a refused ballot makes the whole conversion fail, so `h` is impossible
+    have : ∀ (q : RProfile) (agg : Dict Cand), bw ∈ q →
+        ∀ r, q.foldlM (positionalStep sc (allRankedCandidates p).length) agg ≠ .ok r := by
+      intro q
+      induction q with
+      | nil => intro _ hq; simp at hq
+      | cons a t ih =>
+        intro agg hq r
+        rw [List.foldlM_cons]
+        rcases List.mem_cons.1 hq with rfl | hq
+        · have : positionalStep sc (allRankedCandidates p).length agg bw
+              = match sc.scores (allRankedCandidates p).length bw.1.length with
+                | .ok scores => positionalBallot scores bw.2 0 bw.1 agg
+                | .error e => .error e := rfl
+          rw [this]
+          cases hsc : sc.scores (allRankedCandidates p).length bw.1.length with
+          | ok l => exact absurd hsc (hrej l)
+          | error e => intro hh; cases hh
+        · cases hstep : positionalStep sc (allRankedCandidates p).length agg a with
+          | ok agg' => exact ih agg' hq r
+          | error e => intro hh; cases hh
+    rw [positionalU_def] at h
+    cases hf : p.foldlM (positionalStep sc (allRankedCandidates p).length)
+        ((allRankedCandidates p).map (fun c => (c, (0 : Rat)))) with
+    | ok r => exact this p _ hbw r hf
+    | error e => rw [hf] at h; cases h
+  obtain ⟨d', hd', hk, hn, _⟩ := positional_sum sc _ p (covers_allRankedCandidates p) hs
+  rw [hd'] at h; cases h
+  exact ⟨hn (nodup_allRankedCandidates p), fun k => by rw [hk, mem_allRankedCandidates]⟩
+
+/-- the image in rank-indexed form: candidate `k` collects, for every place `j` of the ballot, the score of
+    rank `j` times the number of times it stands there -/
+theorem posImage_eq_sum (sc : Scorer) (nCand : Nat) (b : Ballot) (k : Cand) :
+    posImage sc nCand b k
+      = ((List.range b.length).map (fun j =>
+          (scorerList sc nCand b.length).getD j 0 * cnt (b.getD j (.shared [])).cands k)).sum := by
+  unfold posImage
+  rw [posFrom_eq_sum]
+  simp
+
+/-! ### the score lists (these react to `component/rankscore.py` through `Gen/RankScore.lean`) -/
+
+/-- Borda: rank `r` (0 = best) of a ballot scores `n_candidates + base - 1 - r` -/
+theorem borda_score_at (base : Int) (nCand n r : Nat) (hn : n ≤ nCand) (hr : r < n) :
+    (scorerList (.borda base) nCand n).getD r 0 = (((nCand : Int) + base - 1 - (r : Int) : Int) : Rat) := by
+  unfold scorerList
+  simp only [Scorer.scores]
+  rw [if_neg (by omega)]
+  simp only [selectPadded_getD _ _ _ hr, Gen.RankScore.borda_scores]
+  rw [getD_map_range _ _ _ (by omega)]
+  push_cast; ring
+
+theorem borda_rejects (base : Int) (nCand n : Nat) (hn : nCand < n) :
+    (Scorer.borda base).scores nCand n = .error .valueError := by
+  simp only [Scorer.scores]; rw [if_pos hn]
+
+/-- Dowdall: `1 / (r + 1)` -/
+theorem dowdall_score_at (nCand n r : Nat) (hr : r < n) :
+    (scorerList .dowdall nCand n).getD r 0 = 1 / ((r : Rat) + 1) := by
+  unfold scorerList
+  simp only [Scorer.scores, Gen.RankScore.dowdall_scores]
+  rw [getD_map_range _ _ _ hr]
+  push_cast; ring
+
+/-- Geometric: `1 / base ^ r` -/
+theorem geometric_score_at (base nCand n r : Nat) (hb : base ≠ 0) (hr : r < n) :
+    (scorerList (.geometric base) nCand n).getD r 0 = 1 / ((base : Rat) ^ r) := by
+  unfold scorerList
+  simp only [Scorer.scores]
+  rw [if_neg (by simp [hb])]
+  simp only [Gen.RankScore.geometric_scores]
+  rw [getD_map_range _ _ _ hr]
+  push_cast; ring
+
+/-- Modified Borda: `n_ranked - r` -/
+theorem modifiedBorda_score_at (nCand n r : Nat) (hr : r < n) :
+    (scorerList .modifiedBorda nCand n).getD r 0 = (n : Rat) - (r : Rat) := by
+  unfold scorerList
+  simp only [Scorer.scores, Gen.RankScore.modified_borda_scores]
+  rw [getD_map_range _ _ _ hr]
+  push_cast; ring
+
+/-- FixedTop: `max(top - r, 0)` -/
+theorem fixedTop_score_at (top : Int) (nCand n r : Nat) (hr : r < n) :
+    (scorerList (.fixedTop top) nCand n).getD r 0 = max ((top : Rat) - (r : Rat)) 0 := by
+  unfold scorerList
+  simp only [Scorer.scores, Gen.RankScore.fixed_top_scores]
+  rw [getD_map_range _ _ _ hr]
+  unfold Py.pyMax
+  push_cast
+  split
+  · rename_i h; rw [max_eq_right (le_of_lt h)]
+  · rename_i h; rw [max_eq_left (not_lt.1 h)]
+
+/-- SequenceBased: the given sequence, then zeros -/
+theorem sequence_score_at (seq : List Rat) (nCand n r : Nat) (hr : r < n) :
+    (scorerList (.sequence seq) nCand n).getD r 0 = seq.getD r 0 := by
+  unfold scorerList
+  simp only [Scorer.scores]
+  exact selectPadded_getD _ _ _ hr
+
+/-- Borda refuses a ballot with more ranks than candidates (no image is invented for it) -/
+theorem positional_borda_rejects (base : Int) (U : List Cand) (b : Ballot) (w : Rat) (h : U.length < b.length) :
+    positionalU (.borda base) U [(b, w)] = .error .valueError := by
+  rw [positionalU_def]
+  have : positionalStep (.borda base) U.length (U.map (fun c => (c, (0 : Rat)))) (b, w) = .error .valueError := by
+    unfold positionalStep; rw [borda_rejects base _ _ h]
+  rw [List.foldlM_cons, this]
+  rfl
+
+
+/-! ## RankedToCondorcetVotes (both modes) -/
+
+/-- the pairwise count of (x, y) is `Σ w · (number of times the ballot counts the ordered pair)` -/
+theorem condorcet_sum (atBottom : Bool) (U : List Cand) :
+    SumOfImages (condorcetU atBottom U) (fun b k => cnt (condPairs atBottom U b) k) :=
+  condorcetU_sum atBottom U
+
+theorem condorcet_additive (atBottom : Bool) (U : List Cand) (p₁ p₂ : RProfile) (k : Cand × Cand) :
+    toFun (condorcetU atBottom U (p₁ ++ p₂)) k = toFun (condorcetU atBottom U p₁) k + toFun (condorcetU atBottom U p₂) k :=
+  (condorcet_sum atBottom U).additive p₁ p₂ k
+
+theorem condorcet_additive_merged (atBottom : Bool) (U : List Cand) (p₁ p₂ : RProfile) (k : Cand × Cand) :
+    toFun (condorcetU atBottom U (mergeDict (p₁ ++ p₂))) k
+      = toFun (condorcetU atBottom U p₁) k + toFun (condorcetU atBottom U p₂) k :=
+  (condorcet_sum atBottom U).additive_merged p₁ p₂ k
+
+/-- the converter as called (`all_cands` = the candidates of the profile): without `unranked_at_bottom`
+    the universe plays no role, so plain additivity holds for all profiles -/
+theorem rankedToCondorcet_additive_nobottom (p₁ p₂ : RProfile) (k : Cand × Cand) :
+    toFun (rankedToCondorcet false (p₁ ++ p₂)) k
+      = toFun (rankedToCondorcet false p₁) k + toFun (rankedToCondorcet false p₂) k := by
+  have : ∀ U p, condorcetU false U p = condorcetU false [] p := by
+    intro U p; unfold condorcetU unrankedOf; rfl
+  unfold rankedToCondorcet
+  rw [this _ (p₁ ++ p₂), this _ p₁, this _ p₂]
+  exact condorcet_additive false [] p₁ p₂ k
+
+/-- with `unranked_at_bottom`, profiles over the same candidates add up -/
+theorem rankedToCondorcet_additive (atBottom : Bool) (p₁ p₂ : RProfile) (k : Cand × Cand)
+    (h₁ : canonSet (allRankedCandidates p₁) = canonSet (allRankedCandidates (p₁ ++ p₂)))
+    (h₂ : canonSet (allRankedCandidates p₂) = canonSet (allRankedCandidates (p₁ ++ p₂))) :
+    toFun (rankedToCondorcet atBottom (p₁ ++ p₂)) k
+      = toFun (rankedToCondorcet atBottom p₁) k + toFun (rankedToCondorcet atBottom p₂) k := by
+  unfold rankedToCondorcet
+  rw [h₁, h₂]
+  exact condorcet_additive atBottom _ p₁ p₂ k
+
+/-- **single-ballot image**: a duplicate-free ballot of weight `w` adds exactly `w` to the count of (x, y)
+    when it ranks x above y — or, with `unranked_at_bottom`, ranks x and leaves the candidate y unranked —
+    and nothing otherwise -/
+theorem condorcet_single (atBottom : Bool) (U : List Cand) (hU : U.Nodup) (b : Ballot) (w : Rat)
+    (hb : (ballotCands b).Nodup) (x y : Cand) :
+    toFun (condorcetU atBottom U [(b, w)]) (x, y)
+      = w * (if (x, y) ∈ condPairs atBottom U b then 1 else 0) ∧
+    ((x, y) ∈ condPairs atBottom U b
+      ↔ Above b x y ∨ (atBottom = true ∧ x ∈ ballotCands b ∧ y ∈ U ∧ y ∉ ballotCands b)) := by
+  refine ⟨?_, mem_condPairs atBottom U b x y⟩
+  rw [(condorcet_sum atBottom U).single, cnt_condPairs atBottom hU hb]
+
+/-- **the two opposite pairwise counts of a pair never sum to more than the number of ballots**
+    (duplicate-free ballots, non-negative weights; `x = y` included: a candidate never beats itself) -/
+theorem pairwise_le_total (atBottom : Bool) (U : List Cand) (hU : U.Nodup) (p : RProfile)
+    (hb : ∀ bw ∈ p, (ballotCands bw.1).Nodup) (hw : ∀ bw ∈ p, 0 ≤ bw.2) (x y : Cand) :
+    toFun (condorcetU atBottom U p) (x, y) + toFun (condorcetU atBottom U p) (y, x) ≤ total p := by
+  rw [condorcet_sum, condorcet_sum, ← wsum_add, ← wsum_one]
+  apply wsum_le_wsum hw
+  intro bw hbw
+  exact cnt_condPairs_le_one atBottom hU (hb bw hbw) x y
+
+/-- the same for the converter as called -/
+theorem rankedToCondorcet_pairwise_le_total (atBottom : Bool) (p : RProfile)
+    (hb : ∀ bw ∈ p, (ballotCands bw.1).Nodup) (hw : ∀ bw ∈ p, 0 ≤ bw.2) (x y : Cand) :
+    toFun (rankedToCondorcet atBottom p) (x, y) + toFun (rankedToCondorcet atBottom p) (y, x) ≤ total p :=
+  pairwise_le_total atBottom _ (nodup_canonSet _) p hb hw x y
+
+/-- a candidate never beats itself on duplicate-free ballots -/
+theorem condorcet_irreflexive (atBottom : Bool) (U : List Cand) (hU : U.Nodup) (p : RProfile)
+    (hb : ∀ bw ∈ p, (ballotCands bw.1).Nodup) (x : Cand) : toFun (condorcetU atBottom U p) (x, x) = 0 := by
+  rw [condorcet_sum]
+  rw [← wsum_zero p]
+  apply wsum_congr
+  intro bw hbw
+  apply cnt_eq_zero
+  intro h
+  exact condPairs_asymm atBottom U (hb bw hbw) h h
+
+theorem condorcet_is_dict (atBottom : Bool) (U : List Cand) (p : RProfile) :
+    (dkeys (condorcetU atBottom U p)).Nodup := condorcetU_nodup atBottom U p
+
+/-- non-vacuity of the hypotheses of `pairwise_le_total` on a profile with a shared rank, a truncated and
+    an empty ballot; and the bound is attained -/
+example : (∀ bw ∈ ([([.shared [1, 2], .one 0], 2), ([.one 0, .one 1], 3), ([], 1)] : RProfile),
+    (ballotCands bw.1).Nodup) ∧ (∀ bw ∈ ([([.shared [1, 2], .one 0], 2), ([.one 0, .one 1], 3), ([], 1)] : RProfile), 0 ≤ bw.2) := by
+  decide +kernel
+
+example : toFun (rankedToCondorcet true [([.shared [1, 2], .one 0], 2), ([.one 0, .one 1], 3), ([], 1)]) (0, 1)
+    + toFun (rankedToCondorcet true [([.shared [1, 2], .one 0], 2), ([.one 0, .one 1], 3), ([], 1)]) (1, 0) = 5 := by
+  decide +kernel
+
+/-- without the duplicate-free hypothesis the bound fails: a ballot naming a candidate twice -/
+theorem pairwise_le_total_needs_nodup :
+    ¬ (toFun (condorcetU true [0, 1] [([.one 0, .one 1, .one 0], 1)]) (0, 1)
+        + toFun (condorcetU true [0, 1] [([.one 0, .one 1, .one 0], 1)]) (1, 0) ≤ total ([([.one 0, .one 1, .one 0], 1)] : RProfile)) := by
   decide +kernel
 
 end VL.C13
